@@ -25,6 +25,11 @@ var notApplicable = map[string]string{}
 
 const mod = sym.HeliosModule
 
+// proxyStubs redirects the reverse proxy to the harness model of it.
+var proxyStubs = map[string]string{
+	"(*net/http/httputil.ReverseProxy).ServeHTTP": mod + "/internal/loadbalancer.verifStubProxy",
+}
+
 func job(id, pkg, fn string, args ...int64) *sym.Job {
 	return &sym.Job{ID: id, Harness: mod + "/internal/" + pkg + "." + fn, Args: args, ValidatePaths: 2}
 }
@@ -60,6 +65,7 @@ var commonAssumptions = []string{
 
 func allProps() []*Prop {
 	return []*Prop{
+		propC13(),
 		propC02(),
 		propC04(),
 		propC05(),
@@ -137,6 +143,7 @@ func propC08() *Prop {
 		Jobs: func(tier string) []*sym.Job {
 			var js []*sym.Job
 			js = append(js, job("C08a/recovery-from-any-invariant-state", "circuitbreaker", "VerifC08Step"))
+			js = append(js, lbJob(fmt.Sprintf("C08b/notifications-never-block[k=%d]", tierPick(tier, 3, 4)), "VerifC08Notify", tierPick(tier, 3, 4)))
 			for k := int64(2); k <= tierPick(tier, 3, 5); k++ {
 				js = append(js, job(fmt.Sprintf("C08a/recovery-after-history[k=%d]", k), "circuitbreaker", "VerifC08Recovery", k))
 			}
@@ -309,5 +316,46 @@ func propC04() *Prop {
 			"thorough": "histories of <= 5 events for RR/WRR, <= 4 for the other three strategies",
 		},
 		Outside: []string{"schedules of an expiry check racing a fresh ejection (thread mode, see C12)", "more than one backend in the history harness"},
+	}
+}
+
+func lbJob(id, fn string, args ...int64) *sym.Job {
+	j := job(id, "loadbalancer", fn, args...)
+	j.Stubs = proxyStubs
+	return j
+}
+
+var featNames = []string{"plain", "breaker", "limiter", "breaker+limiter", "passive", "breaker+passive", "limiter+passive", "breaker+limiter+passive"}
+
+func propC13() *Prop {
+	return &Prop{
+		ID: "C13", Title: "Accounting: counters conserve requests; in-flight gauges return to zero",
+		Jobs: func(tier string) []*sym.Job {
+			var js []*sym.Job
+			for f := int64(0); f < 8; f++ {
+				for _, s := range []int64{0, 1} {
+					if s == 1 && f != 0 && f != 4 {
+						continue
+					}
+					k, arb := int64(2), int64(0)
+					if f == 0 || f == 4 || tier == "thorough" {
+						arb = 1
+					}
+					if tier == "thorough" && f == 0 {
+						k = 3
+					}
+					j := lbJob(fmt.Sprintf("C13a/accounting[%s,%s,k=%d,arbitrary health=%d]", strategyNames[s], featNames[f], k, arb), "VerifC13Accounting", s, f, k, arb)
+					j.MaxPaths = 400000
+					js = append(js, j)
+				}
+			}
+			return js
+		},
+		Assumptions: append([]string{"(*httputil.ReverseProxy).ServeHTTP is replaced by a model over a scripted backend: forward status 200..599 + body | default error handler 502 | abort after the headers with panic(http.ErrAbortHandler); natively the REAL ReverseProxy runs over a scripted RoundTripper", "the client connection is a recording ResponseWriter implementing net/http's documented contract; the harness recovers handler panics like net/http's server", "two backends in arbitrary health state (flag, window end zero or within 2^40ns of now)"}, commonAssumptions...),
+		Bounds: map[string]string{
+			"quick":    "every sequence of <= 2 requests x every backend behaviour x all 8 on/off combinations of breaker / limiter / passive checks, round_robin (and least_connections for plain/passive), 2 backends (arbitrary health state for plain/passive, healthy otherwise); counters checked after every request",
+			"thorough": "<= 3 requests without optional features; arbitrary health state for every feature combination",
+		},
+		Outside: []string{"concurrent clients (interleaved decrement / mirror update)", "more than 2 backends", "1000-backend metrics cap"},
 	}
 }
